@@ -228,6 +228,10 @@ def make_probes(rng, declared, kinds, removed):
     # --- produced and used in the same extend
     out.append(("extend-uses-new-same-step", "extend", {"ops": {nv: f"{c} + 1", nw: f"{nv} + 1"}}, None, "-"))
     out.append(("extend-uses-overwritten-same-step", "extend", {"ops": {c: f"{c} + 1", nw: f"{c} + 2"}}, None, "-"))
+    out.append(("extend-uses-overwritten-same-step-reader-first", "extend", {"ops": {nw: f"{c} + 2", c: f"{c} + 1"}}, None, "-"))
+    out.append(("extend-uses-new-same-step-reader-first", "extend", {"ops": {nw: f"{nv} + 1", nv: f"{c} + 1"}}, None, "-"))
+    if c2:
+        out.append(("extend-three-way-reader-first", "extend", {"ops": {nw: f"{c} * 2", nv: f"{c2} + 1", c: f"{c} + 1"}}, None, "-"))
     # --- non-aggregating / too complex
     out.append(("project-arith", "project", {"ops": {nv: f"{c} + 1"}, "group_by": [c2] if c2 else []}, None, "-"))
     out.append(("project-plain-column", "project", {"ops": {nv: f"{c}"}, "group_by": [c2] if c2 else []}, None, "-"))
